@@ -164,7 +164,7 @@ class Ctx:
     def unmatched_findings(self):
         return [f for f in self.findings if f.get("status", "open") == "open" and f["fingerprint"] not in self._known_printed]
 
-    def finish(self):
+    def finish(self, write=True):
         cov = self.cov
         cov["distinct_nontrivial"] = len(self._distinct)
         cov["rule"] = self.rule
@@ -186,11 +186,12 @@ class Ctx:
             "known_finding_hits": self.n_known,
             "ufl_head": ufl_head(),
         }
-        os.makedirs(EVIDENCE, exist_ok=True)
-        tmp = os.path.join(EVIDENCE, f".{self.pid}.json.tmp")
-        with open(tmp, "w") as f:
-            json.dump(doc, f, indent=1, default=str)
-        os.replace(tmp, os.path.join(EVIDENCE, f"{self.pid}.json"))
+        if write:
+            os.makedirs(EVIDENCE, exist_ok=True)
+            tmp = os.path.join(EVIDENCE, f".{self.pid}.json.tmp")
+            with open(tmp, "w") as f:
+                json.dump(doc, f, indent=1, default=str)
+            os.replace(tmp, os.path.join(EVIDENCE, f"{self.pid}.json"))
         print(
             f"[{self.pid}] tier={self.tier} seed={self.seed} states={cov['states']} "
             f"traces={cov['traces_validated_against_impl']} evals={cov['evaluations']} "
@@ -214,7 +215,7 @@ def main_wrapper(pid, run, argv=None):
     ctx = Ctx(pid, tier=args.tier, seed=args.seed)
     try:
         run(ctx, args)
-        rc = ctx.finish()
+        rc = ctx.finish(write=not args.selftest)  # a self-test never overwrites the evidence
     except MachineryError as e:
         print(f"MACHINERY-FAILURE property={pid}: {e}", flush=True)
         traceback.print_exc()
